@@ -168,7 +168,10 @@ func runRun(t *testing.T, s *Scenario) (evs []wire.Event) {
 			"http_method", rp.HTTPMethod, "http_path", rp.HTTPPath, "expect_status", numExtra(s, "expect_status"), "expect", expectOf(s), "expect20", expect20Of(s), "expect17", expect17Of(s), "public_ip", rp.PublicIP, "pub_mode", rp.PubMode, "skip_private", rp.SkipPrivate, "query", rp.Query, "want_v6", rp.WantV6, "paris", rp.Paris)
 		ctx, cancel := context.WithCancel(context.Background())
 		defer cancel()
-		if s.CancelUs > 0 {
+		if boolExtra(s, "cancel_at_start") { // the caller's context is already cancelled when the request starts
+			w.LogEvent("Cancel")
+			cancel()
+		} else if s.CancelUs > 0 {
 			tm := time.AfterFunc(time.Duration(s.CancelUs)*time.Microsecond, func() {
 				w.LogEvent("Cancel")
 				cancel()
